@@ -45,7 +45,10 @@ Inductive tab :=
 | T_ACCESSED    (* Env._accessed_cleaned_to_env *)
 | T_OBJ         (* heap of mutable set/dict objects: id -> content (0 = empty, 1 = full) *)
 | T_V1ALIAS     (* DATACLASS_FIELD_TO_ALIAS_FOR_LOAD[cls] (v1), used by the catch-all protocol *)
-| T_V1FLAG.     (* IS_V1_LOAD_CONFIG_SETUP *)
+| T_V1FLAG      (* IS_V1_LOAD_CONFIG_SETUP *)
+| T_V1AL (cls : nat)   (* DATACLASS_FIELD_TO_ALIAS_FOR_LOAD[cls] (v1 program model, ConcV1Model.v): field -> load alias *)
+| T_V1PA (cls : nat)   (* DATACLASS_FIELD_TO_ALIAS_PATH_FOR_LOAD[cls] (v1): field -> paths *)
+| T_META.       (* class_helper._META: cls -> Meta (get_meta / Meta.bind_to) *)
 
 Definition tab_eqb (a b : tab) : bool :=
   match a, b with
@@ -53,7 +56,9 @@ Definition tab_eqb (a b : tab) : bool :=
   | T_DUMPFUNC, T_DUMPFUNC | T_LOADER, T_LOADER | T_DUMPER, T_DUMPER | T_PARSERS, T_PARSERS
   | T_DUMPFLAG, T_DUMPFLAG | T_JSON2F, T_JSON2F | T_PATH, T_PATH | T_ALIAS, T_ALIAS | T_ATTR, T_ATTR
   | T_ENVIRON, T_ENVIRON | T_VARNAMES, T_VARNAMES | T_CLEANED, T_CLEANED | T_ACCESSED, T_ACCESSED
-  | T_OBJ, T_OBJ | T_V1ALIAS, T_V1ALIAS | T_V1FLAG, T_V1FLAG => true
+  | T_OBJ, T_OBJ | T_V1ALIAS, T_V1ALIAS | T_V1FLAG, T_V1FLAG | T_META, T_META => true
+  | T_V1AL o1, T_V1AL o2 => Nat.eqb o1 o2
+  | T_V1PA o1, T_V1PA o2 => Nat.eqb o1 o2
   | T_HOOKS o1, T_HOOKS o2 => Nat.eqb o1 o2
   | T_DEFAULTS o1, T_DEFAULTS o2 => Nat.eqb o1 o2
   | _, _ => false
@@ -127,7 +132,8 @@ Inductive ypoint :=
 | Y_key_cache_miss | Y_key_cache_store
 | Y_env_load_environ | Y_env_var_names | Y_env_cleaned
 | Y_v1_cfg_flag | Y_v1_load_aliases_read | Y_v1_load_store
-| Y_env_names_update | Y_env_cleaned_update.
+| Y_env_names_update | Y_env_cleaned_update
+| Y_v1_load_gen | Y_v1_cfg_begin | Y_v1_cfg_paths_read | Y_v1_cfg_field | Y_v1_load_setattr.
 
 Inductive prog :=
 | Ret (os : list outcome)                          (* outcomes of the calls of this thread *)
@@ -737,6 +743,9 @@ Definition show_yp (y : ypoint) : pstr :=
   | Y_v1_cfg_flag => S "v1_cfg.flag" | Y_v1_load_aliases_read => S "v1_load.aliases_read"
   | Y_v1_load_store => S "v1_load.store"
   | Y_env_names_update => S "env.names_update" | Y_env_cleaned_update => S "env.cleaned_update"
+  | Y_v1_load_gen => S "v1_load.gen" | Y_v1_cfg_begin => S "v1_cfg.begin"
+  | Y_v1_cfg_paths_read => S "v1_cfg.paths_read" | Y_v1_cfg_field => S "v1_cfg.field"
+  | Y_v1_load_setattr => S "v1_load.setattr"
   end.
 
 Definition show_err (e : err) : pstr :=
@@ -801,11 +810,17 @@ Definition yp_code (y : ypoint) : pstr :=
   | Y_v1_load_store => S "G"
   | Y_env_names_update => S "H"
   | Y_env_cleaned_update => S "I"
+  | Y_v1_load_gen => S "J"
+  | Y_v1_cfg_begin => S "K"
+  | Y_v1_cfg_paths_read => S "L"
+  | Y_v1_cfg_field => S "M"
+  | Y_v1_load_setattr => S "N"
   end.
 
 Definition all_ypoints : list ypoint :=
   [Y_fields_miss; Y_defaults_miss; Y_defaults_registered; Y_defaults_fill; Y_load_cfg_begin; Y_load_cfg_field; Y_load_cfg_store; Y_dump_cfg_begin; Y_dump_cfg_paths_read; Y_dump_cfg_field; Y_dump_cfg_flag; Y_loader_miss; Y_dumper_miss; Y_load_miss; Y_load_gen; Y_load_setattr; Y_load_store; Y_dump_miss; Y_dump_gen; Y_dump_cfg_done; Y_dump_setattr; Y_dump_store; Y_hook_scan_begin; Y_hook_scan_iter; Y_hook_scan_store; Y_key_cache_miss; Y_key_cache_store; Y_env_load_environ; Y_env_var_names; Y_env_cleaned; Y_v1_cfg_flag; Y_v1_load_aliases_read; Y_v1_load_store;
-   Y_env_names_update; Y_env_cleaned_update].
+   Y_env_names_update; Y_env_cleaned_update;
+   Y_v1_load_gen; Y_v1_cfg_begin; Y_v1_cfg_paths_read; Y_v1_cfg_field; Y_v1_load_setattr].
 
 (* "name=code,name=code,..." : lets the harness check its own code table against this one *)
 Definition show_codes : pstr :=
